@@ -6,6 +6,8 @@ from ..spec import grammar as S
 from ..mon import hooks
 from ..mon.client import call
 
+from ..ctx import level_of
+
 ID = "C12"
 OPS = "MIDP=XH"
 
@@ -135,7 +137,7 @@ def run(case, ctx):
     base = ["S\t%s\t*" % s for s in segs]
     if case["k"] == "graph":
         for first, second in ((lt, ct), (ct, lt)):
-            r = call(ctx, "Gfa(list)", gfapy.Gfa, base + [first], version="gfa1")
+            r = call(ctx, "Gfa(list)", gfapy.Gfa, base + [first], version="gfa1", vlevel=level_of(ctx, base + [first]))
             if not r.ok:
                 ctx.violation("valid-document-refused/" + r.cls(), repr(base + [first]), prop="C01")
                 return
@@ -189,7 +191,7 @@ def run(case, ctx):
         docs = [base + [stored_form, p], base + [p, stored_form], [p] + base + [stored_form], [p, stored_form] + base,
                 [stored_form, p] + base, [stored_form] + base + [p]]
         doc = docs[case["order"] % len(docs)]
-        r = call(ctx, "Gfa(list)", gfapy.Gfa, doc, version="gfa1")
+        r = call(ctx, "Gfa(list)", gfapy.Gfa, doc, version="gfa1", vlevel=level_of(ctx, doc))
         ctx.count("path_resolutions")
         if not r.ok:
             ctx.violation("path-over-link-refused/%s/%s" % (direction, r.cls()), "%r: %s" % (doc, str(r.exc)[:200]))
